@@ -1,322 +1,48 @@
-import FstVerif.Model.Aut
+import FstVerif.Proofs.Aut
 /-
 C18 — built-in automata and combinators match their specifications, and the
 pruning hints are sound for any component automata whose hints are sound.
-Everything here is for arbitrary component automata over arbitrary state
-types: no bound on sizes, strings or nesting depth.
+Statements here; proofs in Proofs/Aut.lean. Everything is for arbitrary
+component automata over arbitrary state types: no bound on sizes, strings or
+nesting depth. `HintsSound A` = for every state, `can_match` false ⇒ no
+continuation matches, and `will_always_match` true ⇒ every continuation matches.
 -/
-namespace Fst
-
+namespace Fst.Props
+open Fst
 variable {σ τ : Type}
 
-/-- both hint clauses of the `Automaton` contract, for every state -/
-def HintsSound (A : Aut σ) : Prop :=
-  (∀ s, A.canMatch s = false → ∀ w, A.isMatch (A.run s w) = false) ∧
-  (∀ s, A.willAlwaysMatch s = true → ∀ w, A.isMatch (A.run s w) = true)
-
-theorem run_nil (A : Aut σ) (s : σ) : A.run s [] = s := rfl
-theorem run_cons (A : Aut σ) (s : σ) (b : UInt8) (w : Key) :
-    A.run s (b :: w) = A.run (A.accept s b) w := rfl
-theorem run_append (A : Aut σ) (s : σ) (u w : Key) : A.run s (u ++ w) = A.run (A.run s u) w := by
-  simp [Aut.run, List.foldl_append]
-
-/-! ### product automata -/
-
-theorem union_run (A : Aut σ) (B : Aut τ) (s : σ × τ) (w : Key) :
-    (autUnion A B).run s w = (A.run s.1 w, B.run s.2 w) := by
-  induction w generalizing s with
-  | nil => rfl
-  | cons b w ih => simp only [run_cons]; rw [ih]; rfl
-
-theorem inter_run (A : Aut σ) (B : Aut τ) (s : σ × τ) (w : Key) :
-    (autInter A B).run s w = (A.run s.1 w, B.run s.2 w) := by
-  induction w generalizing s with
-  | nil => rfl
-  | cons b w ih => simp only [run_cons]; rw [ih]; rfl
-
-theorem compl_run (A : Aut σ) (s : σ) (w : Key) : (autCompl A).run s w = A.run s w := by
-  induction w generalizing s with
-  | nil => rfl
-  | cons b w ih => simp only [run_cons]; rw [ih]; rfl
-
-/-- Union accepts exactly the union of the languages -/
-theorem C18_union (A : Aut σ) (B : Aut τ) (w : Key) :
-    (autUnion A B).accepts w = (A.accepts w || B.accepts w) := by
-  simp [Aut.accepts, union_run]; rfl
-
-/-- Intersection accepts exactly the intersection -/
-theorem C18_inter (A : Aut σ) (B : Aut τ) (w : Key) :
-    (autInter A B).accepts w = (A.accepts w && B.accepts w) := by
-  simp [Aut.accepts, inter_run]; rfl
-
-/-- Complement accepts exactly the complement -/
-theorem C18_compl (A : Aut σ) (w : Key) : (autCompl A).accepts w = !A.accepts w := by
-  simp [Aut.accepts, compl_run]; rfl
-
-/-- AlwaysMatch accepts everything -/
-theorem C18_always (w : Key) : autAlways.accepts w = true := rfl
-
-theorem C18_hints_union (A : Aut σ) (B : Aut τ) (hA : HintsSound A) (hB : HintsSound B) :
-    HintsSound (autUnion A B) := by
-  constructor
-  · intro s h w
-    have h' : (A.canMatch s.1 || B.canMatch s.2) = false := h
-    rw [Bool.or_eq_false_iff] at h'
-    rw [union_run]
-    show (A.isMatch _ || B.isMatch _) = false
-    rw [hA.1 _ h'.1 w, hB.1 _ h'.2 w]; rfl
-  · intro s h w
-    have h' : (A.willAlwaysMatch s.1 || B.willAlwaysMatch s.2) = true := h
-    rw [union_run]
-    show (A.isMatch _ || B.isMatch _) = true
-    rw [Bool.or_eq_true] at h' ⊢
-    cases h' with
-    | inl h1 => exact Or.inl (hA.2 _ h1 w)
-    | inr h2 => exact Or.inr (hB.2 _ h2 w)
-
-theorem C18_hints_inter (A : Aut σ) (B : Aut τ) (hA : HintsSound A) (hB : HintsSound B) :
-    HintsSound (autInter A B) := by
-  constructor
-  · intro s h w
-    have h' : (A.canMatch s.1 && B.canMatch s.2) = false := h
-    rw [inter_run]
-    show (A.isMatch _ && B.isMatch _) = false
-    rw [Bool.and_eq_false_iff] at h' ⊢
-    cases h' with
-    | inl h1 => exact Or.inl (hA.1 _ h1 w)
-    | inr h2 => exact Or.inr (hB.1 _ h2 w)
-  · intro s h w
-    have h' : (A.willAlwaysMatch s.1 && B.willAlwaysMatch s.2) = true := h
-    rw [Bool.and_eq_true] at h'
-    rw [inter_run]
-    show (A.isMatch _ && B.isMatch _) = true
-    rw [hA.2 _ h'.1 w, hB.2 _ h'.2 w]; rfl
-
-theorem C18_hints_compl (A : Aut σ) (hA : HintsSound A) : HintsSound (autCompl A) := by
-  constructor
-  · intro s h w
-    have h' : (!A.willAlwaysMatch s) = false := h
-    rw [compl_run]
-    show (!A.isMatch _) = false
-    rw [hA.2 s (by simpa using h') w]; rfl
-  · intro s h w
-    have h' : (!A.canMatch s) = true := h
-    rw [compl_run]
-    show (!A.isMatch _) = true
-    rw [hA.1 s (by simpa using h') w]; rfl
-
-theorem C18_hints_always : HintsSound autAlways :=
-  ⟨fun _ h _ => (by cases h), fun _ _ _ => rfl⟩
-
-/-! ### StartsWith -/
-
-/-- some prefix of `w` (possibly empty or all of it) is accepted from state `s` -/
-def somePrefix (A : Aut σ) (s : σ) : Key → Bool
-  | [] => A.isMatch s
-  | b :: w => A.isMatch s || somePrefix A (A.accept s b) w
-
-theorem sw_done_run (A : Aut σ) (w : Key) : (autStartsWith A).run .done w = .done := by
-  induction w with
-  | nil => rfl
-  | cons b w ih => simp only [run_cons]; exact ih
-
-/-- from a running state whose inner state does not match yet -/
-theorem sw_running (A : Aut σ) (s : σ) (w : Key) (h : A.isMatch s = false) :
-    (autStartsWith A).isMatch ((autStartsWith A).run (.running s) w) = somePrefix A s w := by
-  induction w generalizing s with
-  | nil => simp [run_nil, somePrefix, h]; rfl
-  | cons b w ih =>
-    simp only [run_cons, somePrefix, h, Bool.false_or]
-    show (autStartsWith A).isMatch ((autStartsWith A).run
-      (if A.isMatch (A.accept s b) then SW.done else SW.running (A.accept s b)) w) = _
-    by_cases hm : A.isMatch (A.accept s b) = true
-    · rw [if_pos hm, sw_done_run]
-      cases w <;> simp [somePrefix, hm] <;> rfl
-    · have hm' : A.isMatch (A.accept s b) = false := by simpa using hm
-      rw [if_neg hm]
-      exact ih _ hm'
-
-/-- StartsWith(A) accepts exactly the strings having a prefix accepted by A -/
-theorem C18_startswith (A : Aut σ) (w : Key) :
-    (autStartsWith A).accepts w = somePrefix A A.start w := by
-  unfold Aut.accepts
-  show (autStartsWith A).isMatch ((autStartsWith A).run
-    (if A.isMatch A.start then SW.done else SW.running A.start) w) = _
-  by_cases hm : A.isMatch A.start = true
-  · rw [if_pos hm, sw_done_run]
-    cases w <;> simp [somePrefix, hm] <;> rfl
-  · have hm' : A.isMatch A.start = false := by simpa using hm
-    rw [if_neg hm]
-    exact sw_running A _ w hm'
-
-theorem somePrefix_false_of_nomatch (A : Aut σ) : ∀ (u : Key) (t : σ),
-    (∀ v, A.isMatch (A.run t v) = false) → somePrefix A t u = false := by
-  intro u
-  induction u with
-  | nil => intro t ht; exact ht []
-  | cons d u ihu =>
-    intro t ht
-    have h0 : A.isMatch t = false := ht []
-    simp only [somePrefix, h0, Bool.false_or]
-    exact ihu _ (fun v => ht (d :: v))
-
-theorem somePrefix_false_of_cannot (A : Aut σ) (hA : HintsSound A) (s : σ) (h : A.canMatch s = false) :
-    ∀ w, somePrefix A s w = false :=
-  fun w => somePrefix_false_of_nomatch A w s (hA.1 s h)
-
-theorem C18_hints_startswith (A : Aut σ) (hA : HintsSound A) : HintsSound (autStartsWith A) := by
-  constructor
-  · intro s h w
-    cases s with
-    | done => cases h
-    | running i =>
-      have hc : A.canMatch i = false := h
-      have h0 : A.isMatch i = false := hA.1 i hc []
-      rw [sw_running A i w h0]
-      exact somePrefix_false_of_cannot A hA i hc w
-  · intro s h w
-    cases s with
-    | done => rw [sw_done_run]; rfl
-    | running i => cases h
-
-/-! ### Str and Subsequence -/
-
-theorem str_dead (s : Key) (w : Key) : (autStr s).run none w = none := by
-  induction w with
-  | nil => rfl
-  | cons b w ih => simp only [run_cons]; exact ih
-
-/-- from position `p`, the automaton ends in `some s.length` iff the rest of `s` is exactly `w` -/
-theorem str_run (s : Key) : ∀ (w : Key) (p : Nat), p ≤ s.length →
-    ((autStr s).run (some p) w = some s.length ↔ s.drop p = w) := by
-  intro w
-  induction w with
-  | nil =>
-    intro p hp
-    simp only [run_nil, Option.some.injEq]
-    constructor
-    · intro h; subst h; simp
-    · intro h
-      have := congrArg List.length h
-      simp at this; omega
-  | cons b w ih =>
-    intro p hp
-    simp only [run_cons]
-    show (autStr s).run (if s[p]? == some b then some (p + 1) else none) w = some s.length ↔ _
-    by_cases hb : s[p]? = some b
-    · have hlt : p < s.length := by
-        rcases Nat.lt_or_ge p s.length with h | h
-        · exact h
-        · rw [List.getElem?_eq_none h] at hb; cases hb
-      simp only [hb, beq_self_eq_true, ite_true]
-      rw [ih (p + 1) (by omega)]
-      have hd : s.drop p = b :: s.drop (p + 1) := by
-        rw [List.drop_eq_getElem_cons hlt]
-        congr 1
-        rw [List.getElem?_eq_getElem hlt] at hb
-        exact Option.some.inj hb
-      rw [hd]
-      constructor
-      · intro h; rw [h]
-      · intro h; exact (List.cons.inj h).2
-    · have : (s[p]? == some b) = false := by simpa using hb
-      simp only [this]
-      rw [show (if false = true then some (p + 1) else none : Option Nat) = none from rfl, str_dead]
-      constructor
-      · intro h; cases h
-      · intro h
-        exfalso
-        apply hb
-        have hlt : p < s.length := by
-          have := congrArg List.length h
-          simp at this; omega
-        rw [List.drop_eq_getElem_cons hlt] at h
-        rw [List.getElem?_eq_getElem hlt, (List.cons.inj h).1]
-
 /-- Str accepts exactly its string -/
-theorem C18_str (s w : Key) : (autStr s).accepts w = true ↔ w = s := by
-  unfold Aut.accepts
-  show ((autStr s).run (some 0) w == some s.length) = true ↔ _
-  rw [beq_iff_eq, str_run s w 0 (Nat.zero_le _)]
-  simp [eq_comm]
+theorem C18_str (s w : Key) : (autStr s).accepts w = true ↔ w = s := Fst.C18_str s w
+/-- Subsequence accepts exactly the byte strings containing its pattern as a subsequence -/
+theorem C18_subseq (s w : Key) : (autSubseq s).accepts w = isSubseq s w := Fst.C18_subseq s w
+/-- AlwaysMatch accepts everything -/
+theorem C18_always (w : Key) : autAlways.accepts w = true := Fst.C18_always w
+/-- StartsWith(A) accepts exactly the strings having a prefix (possibly empty, possibly all) accepted by A -/
+theorem C18_startswith (A : Aut σ) (w : Key) :
+    (autStartsWith A).accepts w = somePrefix A A.start w := Fst.C18_startswith A w
+/-- Union / Intersection / Complement are the Boolean combinations -/
+theorem C18_union (A : Aut σ) (B : Aut τ) (w : Key) :
+    (autUnion A B).accepts w = (A.accepts w || B.accepts w) := Fst.C18_union A B w
+theorem C18_inter (A : Aut σ) (B : Aut τ) (w : Key) :
+    (autInter A B).accepts w = (A.accepts w && B.accepts w) := Fst.C18_inter A B w
+theorem C18_compl (A : Aut σ) (w : Key) : (autCompl A).accepts w = !A.accepts w := Fst.C18_compl A w
 
-theorem C18_hints_str (s : Key) : HintsSound (autStr s) := by
-  constructor
-  · intro st h w
-    cases st with
-    | none => rw [str_dead]; rfl
-    | some p => cases h
-  · intro st h; cases h
-
-/-- `pat` is a subsequence of `w` -/
-def isSubseq : Key → Key → Bool
-  | [], _ => true
-  | _ :: _, [] => false
-  | p :: ps, b :: w => if p = b then isSubseq ps w else isSubseq (p :: ps) w
-
-theorem subseq_full (s : Key) (w : Key) : (autSubseq s).run s.length w = s.length := by
-  induction w with
-  | nil => rfl
-  | cons b w ih =>
-    simp only [run_cons]
-    show (autSubseq s).run (if (s.length == s.length) = true then s.length else _) w = _
-    simp [ih]
-
-theorem subseq_run (s : Key) : ∀ (w : Key) (st : Nat), st ≤ s.length →
-    (((autSubseq s).run st w == s.length) = isSubseq (s.drop st) w) := by
-  intro w
-  induction w with
-  | nil =>
-    intro st hst
-    simp only [run_nil]
-    rcases Nat.lt_or_ge st s.length with h | h
-    · rw [List.drop_eq_getElem_cons h]
-      simp [isSubseq]; omega
-    · have : st = s.length := by omega
-      subst this; simp [isSubseq]
-  | cons b w ih =>
-    intro st hst
-    simp only [run_cons]
-    rcases Nat.lt_or_ge st s.length with h | h
-    · have hne : (st == s.length) = false := by simp; omega
-      show ((autSubseq s).run (if (st == s.length) = true then st else st + (if s[st]? == some b then 1 else 0)) w == s.length) = _
-      rw [hne]
-      simp only [Bool.false_eq_true, ite_false]
-      rw [List.drop_eq_getElem_cons h, List.getElem?_eq_getElem h]
-      by_cases hb : s[st] = b
-      · simp only [hb, beq_self_eq_true, ite_true, isSubseq]
-        rw [ih (st + 1) (by omega)]
-      · have : (some s[st] == some b) = false := by simpa using hb
-        simp only [this, Bool.false_eq_true, ite_false, Nat.add_zero, isSubseq, hb]
-        rw [ih st hst, List.drop_eq_getElem_cons h]
-    · have : st = s.length := by omega
-      subst this
-      rw [show (autSubseq s).accept s.length b = s.length from by
-        show (if (s.length == s.length) = true then s.length else _) = _; simp]
-      rw [subseq_full]; simp [isSubseq]
-
-/-- Subsequence accepts exactly the strings containing its pattern as a subsequence -/
-theorem C18_subseq (s w : Key) : (autSubseq s).accepts w = isSubseq s w := by
-  unfold Aut.accepts
-  show ((autSubseq s).run 0 w == s.length) = _
-  rw [subseq_run s w 0 (Nat.zero_le _)]; simp
-
-theorem C18_hints_subseq (s : Key) : HintsSound (autSubseq s) := by
-  constructor
-  · intro st h; cases h
-  · intro st h w
-    have : st = s.length := by
-      have : (st == s.length) = true := h
-      simpa using this
-    subst this
-    rw [subseq_full]
-    show (s.length == s.length) = true
-    simp
+/-- hint soundness: the leaves … -/
+theorem C18_hints_str (s : Key) : HintsSound (autStr s) := Fst.C18_hints_str s
+theorem C18_hints_subseq (s : Key) : HintsSound (autSubseq s) := Fst.C18_hints_subseq s
+theorem C18_hints_always : HintsSound autAlways := Fst.C18_hints_always
+/-- … and closure under every combinator, for any components whose own hints are sound -/
+theorem C18_hints_startswith (A : Aut σ) (hA : HintsSound A) : HintsSound (autStartsWith A) :=
+  Fst.C18_hints_startswith A hA
+theorem C18_hints_union (A : Aut σ) (B : Aut τ) (hA : HintsSound A) (hB : HintsSound B) :
+    HintsSound (autUnion A B) := Fst.C18_hints_union A B hA hB
+theorem C18_hints_inter (A : Aut σ) (B : Aut τ) (hA : HintsSound A) (hB : HintsSound B) :
+    HintsSound (autInter A B) := Fst.C18_hints_inter A B hA hB
+theorem C18_hints_compl (A : Aut σ) (hA : HintsSound A) : HintsSound (autCompl A) :=
+  Fst.C18_hints_compl A hA
 
 /-- the hypotheses are satisfiable: a concrete composed automaton with sound hints -/
 example : HintsSound (autUnion (autStr [97, 98]) (autCompl (autStartsWith (autSubseq [97])))) :=
   C18_hints_union _ _ (C18_hints_str _) (C18_hints_compl _ (C18_hints_startswith _ (C18_hints_subseq _)))
 
-example : (autUnion (autStr [97, 98]) (autCompl (autSubseq [97]))).accepts [97, 98] = true := by decide
-
-end Fst
+end Fst.Props
